@@ -4,6 +4,7 @@ import warnings
 import numpy as np
 import datagen as dg
 import props.c01 as c01
+import props.c08 as c08
 from common import xr, xvec, from_xr, from_xvec, tokens_close, num_close
 
 ID = "C04"
@@ -20,7 +21,7 @@ TRUSTED_BASE = c01.TRUSTED_BASE + [
     "numpy.ma / netCDF4 masked-array semantics (np.ma.filled)",
 ]
 ASSUMPTIONS = c01.ASSUMPTIONS
-RULE = ("clean.nc: vectors over {masked, nan, -999, -999.5, 0, 1e30, nextafter(1e30), 1e31, inf, -inf, -1e31}; clean.text: "
+RULE = ("ens.missing: C08's ensemble/cdf/quantile ops that carry a missing member or value (threshold probability and quantile derived from an ensemble with missing members, stored columns with missing cells); clean.nc: vectors over {masked, nan, -999, -999.5, 0, 1e30, nextafter(1e30), 1e31, inf, -inf, -1e31}; clean.text: "
         "tokens {-999, -999.0, -9.99e2, NA, ., nan, NaN, inf, -inf, abc, 1e3, 1_0, '', +5}; metric.delete: vector pairs and "
         "the same pairs with k missing cases spliced in, 22 deterministic + 25 categorical metrics; data.missing: datasets "
         "with 30-70% missing cells, all-missing slices and inputs, text files with every missing token")
@@ -56,6 +57,16 @@ def gen_ops(tier, rng):
         kinds = [rng.choice(["o", "f", "of"]) for _ in range(k)]
         m = rng.choice(DET + CONT)
         yield "metric.delete", "mdelete %s %s %s %s %s" % (m, xvec(obs), xvec(fcst), ",".join(map(str, pos)), ",".join(kinds))
+    # missing ensemble members / cdf / quantile values (fields derived in Data._get_score): the ops, the real-code
+    # runner and the oracle are C08's; only the ones that carry a missing value are taken
+    import random as _random
+    taken = 0
+    for stream, op in c08.gen_ops(tier, _random.Random(rng.randrange(10 ** 9))):
+        if stream in ("prob.ensthr", "prob.ensq", "prob.data", "prob.field") and "nan" in op:
+            yield "ens.missing", op
+            taken += 1
+            if taken >= (150 if tier == "quick" else 3000):
+                break
     n = 80 if tier == "quick" else 1500
     for k in range(n):
         ds = dg.gen_dataset(rng, missing=rng.choice([0.3, 0.5, 0.7]))
@@ -88,8 +99,19 @@ def _metric(name, obs, fcst):
         return float(m.compute_from_obs_fcst(obs, fcst))
 
 
+C08_HEADS = ("ensthr", "ensq", "pd", "thrf", "qntf")
+
+
+def spec_op(op):
+    if op.split(" ")[0] in C08_HEADS:
+        return c08.spec_op(op)
+    return None
+
+
 def impl(op):
     a = op.split(" ")
+    if a[0] in C08_HEADS:
+        return c08.impl(op)
     if a[0] == "ncclean":
         import verif.util
         toks = a[1].split(",")
@@ -130,10 +152,14 @@ def lean_op(op):
         return "textclean " + ",".join(out)
     if a[0] == "mdelete":
         return "datani - - -"        # constant model reply "same"
+    if a[0] in C08_HEADS and hasattr(c08, "lean_op"):
+        return c08.lean_op(op)
     return op
 
 
 def cmp(op, impl_out, model_out):
+    if op.split(" ")[0] in C08_HEADS:
+        return c08.cmp(op, impl_out, model_out)
     if op.startswith("mdelete"):
         return True          # implementation-only metamorphic relation (the theorem is C04_pairwise)
     return tokens_close(impl_out, model_out, 1e-9, 1e-12)
@@ -141,6 +167,8 @@ def cmp(op, impl_out, model_out):
 
 def judge(op, impl_out, spec_out):
     a = op.split(" ")
+    if a[0] in C08_HEADS:
+        return c08.judge(op, impl_out, spec_out)
     if impl_out.startswith("EXC:"):
         return ({"kind": "exception", "op": a[0]}, "%s raised %s" % (op[:120], impl_out))
     if a[0] == "ncclean":
